@@ -237,6 +237,28 @@ spec fn needs_downcast(m: LoweringManager, callee_param_types: Option<&Vec<LirTy
 
 
 // =====================================================================================
+// a value stored into a typed slot: a type-erased local is downcast (fix fe037dc)
+// =====================================================================================
+/// what goes into a slot of type `slot` when the program stores `e` there: a local held as `(ref eq)` — the type-erased
+/// `_this` of a method — is cast down to the slot's concrete reference type; every other value is passed as it is
+spec fn stored_into(held_as_eq: bool, e: LirExpression, slot: Type) -> InlineInstruction {
+  if e is Variable && slot is Reference && held_as_eq {
+    InlineInstruction::Cast { pointer_type: LirType::Id(slot->Reference_0), value: Box::new(lowered(e)) }
+  } else { lowered(e) }
+}
+/// R1: the module path `wasm::` of the extracted types, kept as an alias module
+mod wasm { pub(super) use super::Type; pub(super) use super::InlineInstruction; }
+impl LoweringManager {
+//@extract crates/samlang-compiler/src/wasm_lowering.rs :: impl<'a> LoweringManager<'a> / fn lower_expr_into
+//@ret r
+//@replace if self.local_variables.get(n).copied() == Some(wasm::Type::Eq) => if self.local_is_eq(n) ## R3: the lookup in the table of locals is a stub (as in the call argument)
+//@contract
+    ensures
+      r == stored_into(e is Variable && final(self).held_as_eq(e->Variable_0), *e, slot),  // :a_type_erased_local_is_downcast_to_the_type_of_its_slot
+//@end
+}
+
+// =====================================================================================
 // if-else: the final assignments are part of the branches
 // =====================================================================================
 #[verifier::external_body]
@@ -254,6 +276,12 @@ struct StmtLoweringManager { type_cx: TypeLoweringContext, inner: LoweringManage
 impl StmtLoweringManager {
   #[verifier::external_body]
   fn lower_expr(&mut self, e: &LirExpression) -> (r: InlineInstruction) ensures r == lowered(*e) { unimplemented!() }
+  /// lower_expr_into by its contract (proved above on the real function): the value as it goes into a slot of that type;
+  /// whether the local is held type-erased at that point is the manager's state, abstracted to `held_erased`
+  #[verifier::external_body]
+  fn lower_expr_into(&mut self, e: &LirExpression, slot: Type) -> (r: InlineInstruction)
+    ensures r == stored_into(held_erased(*e), *e, slot)
+  { unimplemented!() }
   #[verifier::external_body]
   fn set(&mut self, n: PStr, t: Type, v: InlineInstruction) -> (r: InlineInstruction)
     ensures r == InlineInstruction::LocalSet(n, Box::new(v))
@@ -262,13 +290,16 @@ impl StmtLoweringManager {
   #[verifier::external_body]
   fn lower_stmts(&mut self, stmts: &Vec<LirStatement>) -> (r: Vec<Instruction>) ensures r@ == lowered_stmts(stmts@) { unimplemented!() }
 }
-/// the assignments that end a branch: `n_k = e_k` for every final assignment, in order
+/// R7: whether the variable an operand names is held type-erased when the branch ends (state of the manager's table of locals)
+uninterp spec fn held_erased(e: LirExpression) -> bool;
+/// the assignments that end a branch: `n_k = e_k` for every final assignment, in order, each value as it goes into a slot
+/// of the assigned local's type
 spec fn final_sets(fa: Seq<(PStr, LirType, LirExpression, LirExpression)>, then_branch: bool) -> Seq<Instruction>
   decreases fa.len()
 {
   if fa.len() == 0 { seq![] } else {
     final_sets(fa.drop_last(), then_branch).push(Instruction::Inline(InlineInstruction::LocalSet(fa.last().0,
-      Box::new(lowered(if then_branch { fa.last().2 } else { fa.last().3 })))))
+      Box::new({ let e = if then_branch { fa.last().2 } else { fa.last().3 }; stored_into(held_erased(e), e, lowered_type(fa.last().1)) }))))
   }
 }
 spec fn negated(c: InlineInstruction) -> InlineInstruction {
